@@ -877,4 +877,202 @@ theorem isReal_lplain (t : List Nat) (hs : Small t) (h : isReal t = true) : t.al
       simp_all [exText, lplain]
   simp_all [realText, lplain]
 
+/-! ## `getRealInstance`: what `STEPread` is handed (`findNormalString( "(" )` from the recorded offset) -/
+
+theorem findOne_skipWS (n : Char) (f : Nat) (s : Bytes) : findOne n f (skipWS s) = findOne n f s := by
+  cases f with
+  | zero => rfl
+  | succ f => simp only [findOne, skipWS_idem]
+
+/-- white space costs the search nothing -/
+theorem findOne_ws (n : Char) (f : Nat) (ws : Bytes) (hws : ws.all isSpace = true) (X : Bytes) :
+    findOne n f (ws ++ X) = findOne n f X := by
+  induction ws with
+  | nil => rfl
+  | cons w t ih =>
+    simp only [List.all_cons, Bool.and_eq_true] at hws
+    rw [← findOne_skipWS n f (w :: t ++ X)]
+    show findOne n f (skipWS (w :: (t ++ X))) = _
+    simp only [skipWS, hws.1, ↓reduceIte]
+    rw [findOne_skipWS, ih hws.2]
+
+/-- a character that is no white space, apostrophe, `/` or the needle is stepped over -/
+theorem findOne_char (n : Char) (f : Nat) (c : Char) (r : Bytes) (h1 : isSpace c = false) (h2 : (c == '\'') = false)
+    (h3 : (c == '/') = false) (h4 : (c == n) = false) : findOne n (f + 1) (c :: r) = findOne n f r := by
+  simp only [findOne, skipWS, h1, h2, h3, h4, Bool.false_eq_true, ↓reduceIte, Bool.false_and]
+
+/-- the needle itself ends the search -/
+theorem findOne_hit (n : Char) (f : Nat) (r : Bytes) (h1 : isSpace n = false) (h2 : (n == '\'') = false)
+    (h3 : (n == '/') = false) : findOne n (f + 1) (n :: r) = .ok r := by
+  simp only [findOne, skipWS, h1, h2, h3, Bool.false_eq_true, ↓reduceIte, Bool.false_and, beq_self_eq_true]
+
+def inert (n : Char) (b : Nat) : Bool := !isSpace (ch b) && !(ch b == '\'') && !(ch b == '/') && !(ch b == n)
+
+theorem findOne_inerts (n : Char) : ∀ (l : List Nat), l.all (inert n) = true → ∀ (f : Nat) (X : Bytes),
+    findOne n (f + l.length) (cs l ++ X) = findOne n f X := by
+  intro l
+  induction l with
+  | nil => intro _ f X; rfl
+  | cons a t ih =>
+    intro h f X
+    simp only [List.all_cons, Bool.and_eq_true, inert, Bool.not_eq_true'] at h
+    have : f + (a :: t).length = (f + t.length) + 1 := by simp; omega
+    rw [this, cs_cons]
+    show findOne n (f + t.length + 1) (ch a :: (cs t ++ X)) = _
+    rw [findOne_char n _ (ch a) _ h.1.1.1.1 h.1.1.1.2 h.1.1.2 h.1.2]
+    exact ih (by simpa [inert] using h.2) f X
+
+/-- a separator sequence (white space and comments) is skipped, one step per comment -/
+theorem findOne_gap (n : Char) (hn : n ≠ '/') (ws : Bytes) (hws : ws.all isSpace = true) (X : Bytes) (hX : X.head? ≠ some '*') :
+    ∀ (g : Gap), gapOk g = true → ∀ (k f : Nat), (gapRender g ws X).length + 5 + k ≤ f →
+      ∃ f', X.length + k ≤ f' ∧ findOne n f (gapRender g ws X) = findOne n f' X := by
+  intro g
+  induction g with
+  | nil =>
+    intro _ k f hf
+    refine ⟨f, ?_, ?_⟩
+    · simp [gapRender] at hf; omega
+    · simp only [gapRender]; exact findOne_ws n f ws hws X
+  | cons p t ih =>
+    intro hg k f hf
+    obtain ⟨w, b⟩ := p
+    simp only [gapOk, List.all_cons, Bool.and_eq_true] at hg
+    obtain ⟨⟨hw, hb⟩, ht⟩ := hg
+    have ht' : gapOk t = true := ht
+    simp only [gapRender] at hf ⊢
+    rw [findOne_ws n f w hw]
+    obtain ⟨f0, rfl⟩ : ∃ j, f = j + 1 := ⟨f - 1, by simp at hf; omega⟩
+    have hhead : (gapRender t ws X).head? ≠ some '*' := by
+      cases t with
+      | nil =>
+        cases ws with
+        | nil => simpa [gapRender] using hX
+        | cons w0 wt =>
+          simp only [List.all_cons, Bool.and_eq_true] at hws
+          simp only [gapRender, List.cons_append, List.head?_cons, ne_eq, Option.some.injEq]
+          intro e; rw [e] at hws; exact absurd hws.1 (by decide)
+      | cons q u =>
+        obtain ⟨w1, b1⟩ := q
+        simp only [gapOk, List.all_cons, Bool.and_eq_true] at ht
+        cases w1 with
+        | nil => simp [gapRender]
+        | cons w0 wt =>
+          have := ht.1.1
+          simp only [List.all_cons, Bool.and_eq_true] at this
+          simp only [gapRender, List.cons_append, List.head?_cons, ne_eq, Option.some.injEq]
+          intro e; rw [e] at this; exact absurd this.1 (by decide)
+    have hsk := skipComment_render b hb (gapRender t ws X) hhead f0 (by simp at hf; omega)
+    have hstep : findOne n (f0 + 1) ('/' :: '*' :: (b ++ '*' :: '/' :: gapRender t ws X)) = findOne n f0 (gapRender t ws X) := by
+      have hne : ('/' == n) = false := by
+        cases h : ('/' == n) with
+        | false => rfl
+        | true => exact absurd (by simpa using h : '/' = n).symm hn
+      simp only [findOne, skipWS, show isSpace '/' = false by decide, Bool.false_eq_true, ↓reduceIte,
+        show ('/' == '\'') = false by decide, beq_self_eq_true, List.head?_cons, Bool.and_self, hsk, hne]
+    rw [hstep]
+    obtain ⟨f', h1, h2⟩ := ih ht' k f0 (by simp only [List.length_append, List.length_cons] at hf; omega)
+    exact ⟨f', h1, h2⟩
+
+set_option maxRecDepth 100000 in
+theorem digit_inert : ∀ b, b < 256 → StepModel.isDigit b = true → inert '(' b = true := by decide
+set_option maxRecDepth 100000 in
+theorem kwb_inert : ∀ b, b < 256 → (StepModel.isUpper b || StepModel.isDigit b || b == 95) = true → inert '(' b = true := by decide
+
+theorem all_inert_of (p : Nat → Bool) (hp : ∀ b, b < 256 → p b = true → inert '(' b = true) :
+    ∀ l : List Nat, Small l → l.all p = true → l.all (inert '(') = true := by
+  intro l
+  induction l with
+  | nil => intro _ _; rfl
+  | cons a t ih =>
+    intro hs h
+    simp only [List.all_cons, Bool.and_eq_true] at h ⊢
+    exact ⟨hp a hs.cons.1 h.1, ih hs.cons.2 h.2⟩
+
+/-- **what `STEPread` is handed**: from the recorded offset of a record of the covered class (the start of the layout before `#`),
+    `seekg( begin ); findNormalString( "(" )` and one character back leave the stream exactly at the record's parameter list
+    `( p₁ , … , pₙ ) s4 ; rest` — the leading comments (which may contain parentheses and apostrophes), the instance name, `=` and
+    the keyword with the separators around them are passed over -/
+theorem stepReadInput_lrec (hraw : commentsRaw = true) (lead : List Nat) (hlead : Seps lead) (hls : Small lead)
+    (r : Rec F) (hlex : r.Lex) (hlz : LazyRec r) (rest : Bytes) (f : Nat) (hf : 6 * (lrec lead r rest).length + 30 ≤ f) :
+    stepReadInput f (lrec lead r rest) = .ok ('(' :: (cs (renderParams r.ps) ++ (cs r.s4 ++ (';' :: rest)))) := by
+  have sm1 := hlz.sm.app
+  have sm2 := sm1.2.app
+  have sm3 := sm2.2.app
+  have sm4 := sm3.2.app
+  have sm5 := sm4.2.app
+  obtain ⟨gL, wL, hgL, hwL, heL⟩ := seps_gap hraw lead hlead hls
+  obtain ⟨g1, w1, hg1, hw1, he1⟩ := seps_gap hraw r.s1 hlex.h1 sm2.1
+  obtain ⟨g2, w2, hg2, hw2, he2⟩ := seps_gap hraw r.s2 hlex.h2 sm3.1
+  obtain ⟨g3, w3, hg3, hw3, he3⟩ := seps_gap hraw r.s3 hlex.h3 sm5.1
+  have hds : (r.ds).all (inert '(') = true := all_inert_of _ digit_inert _ sm1.1 hlex.ddig
+  have hkw : (r.n0 :: r.ns).all (inert '(') = true := by
+    apply all_inert_of _ kwb_inert _ sm4.1
+    simp only [List.all_cons, Bool.and_eq_true]
+    exact ⟨by simp [hlz.up0], hlz.ups⟩
+  obtain ⟨P, hP⟩ : ∃ P, P = cs (renderParams r.ps) ++ (cs r.s4 ++ (';' :: rest)) := ⟨_, rfl⟩
+  obtain ⟨T3, hT3⟩ : ∃ T, T = cs r.s3 ++ ('(' :: P) := ⟨_, rfl⟩
+  obtain ⟨T2, hT2⟩ : ∃ T, T = cs r.s2 ++ (cs (r.n0 :: r.ns) ++ T3) := ⟨_, rfl⟩
+  obtain ⟨T1, hT1⟩ : ∃ T, T = cs r.s1 ++ ('=' :: T2) := ⟨_, rfl⟩
+  have hL : lrec lead r rest = cs lead ++ ('#' :: (cs r.ds ++ T1)) := by
+    simp only [lrec, hT1, hT2, hT3, hP]
+  have hlT3 : T3.length = (cs r.s3).length + 1 + P.length := by rw [hT3]; simp only [List.length_append, List.length_cons]; omega
+  have hlT2 : T2.length = (cs r.s2).length + (r.n0 :: r.ns).length + T3.length := by
+    rw [hT2]; simp only [List.length_append, cs_length]; omega
+  have hlT1 : T1.length = (cs r.s1).length + 1 + T2.length := by rw [hT1]; simp only [List.length_append, List.length_cons]; omega
+  have len : (lrec lead r rest).length = (cs lead).length + 1 + r.ds.length + T1.length := by
+    rw [hL]; simp only [List.length_append, List.length_cons, cs_length]; omega
+  unfold stepReadInput
+  suffices h : findOne '(' f (lrec lead r rest) = .ok P by rw [h, hP]
+  rw [hL, heL, gapRender_append]
+  -- the lead
+  obtain ⟨fa, ha1, ha2⟩ := findOne_gap '(' (by decide) wL hwL ('#' :: (cs r.ds ++ T1)) (by simp) gL hgL
+    (4 * (lrec lead r rest).length + 20) f (by
+      have : (gapRender gL wL ('#' :: (cs r.ds ++ T1))).length = (lrec lead r rest).length := by
+        rw [hL, heL, gapRender_append]
+      omega)
+  rw [ha2]
+  simp only [List.length_append, List.length_cons, cs_length] at ha1
+  -- `#` and the digits
+  obtain ⟨fb, rfl⟩ : ∃ j, fa = j + 1 := ⟨fa - 1, by omega⟩
+  rw [findOne_char '(' fb '#' _ (by decide) (by decide) (by decide) (by decide)]
+  obtain ⟨fc, rfl⟩ : ∃ j, fb = j + r.ds.length := ⟨fb - r.ds.length, by omega⟩
+  rw [findOne_inerts '(' r.ds hds fc T1]
+  -- s1 `=`
+  rw [hT1, he1, gapRender_append]
+  obtain ⟨fd, hd1, hd2⟩ := findOne_gap '(' (by decide) w1 hw1 ('=' :: T2) (by simp) g1 hg1
+    (3 * (lrec lead r rest).length + 10) fc (by
+      have h1 : (gapRender g1 w1 ('=' :: T2)).length = (cs r.s1).length + 1 + T2.length := by
+        rw [← gapRender_append, ← he1]; simp only [List.length_append, List.length_cons]; omega
+      omega)
+  rw [hd2]
+  simp only [List.length_cons] at hd1
+  obtain ⟨fe, rfl⟩ : ∃ j, fd = j + 1 := ⟨fd - 1, by omega⟩
+  rw [findOne_char '(' fe '=' _ (by decide) (by decide) (by decide) (by decide)]
+  -- s2, the keyword
+  rw [hT2, he2, gapRender_append]
+  have hkwne : (cs (r.n0 :: r.ns) ++ T3).head? ≠ some '*' := by
+    rw [cs_cons]; simp only [List.cons_append, List.head?_cons, ne_eq, Option.some.injEq]
+    intro e
+    have h2 := (kwb_facts r.n0 sm4.1.cons.1 (by simp [hlz.up0]))
+    rw [e] at h2; exact absurd h2 (by decide)
+  obtain ⟨fg, hg1', hg2'⟩ := findOne_gap '(' (by decide) w2 hw2 (cs (r.n0 :: r.ns) ++ T3) hkwne g2 hg2
+    (2 * (lrec lead r rest).length + 5) fe (by
+      have h1 : (gapRender g2 w2 (cs (r.n0 :: r.ns) ++ T3)).length = (cs r.s2).length + (r.n0 :: r.ns).length + T3.length := by
+        rw [← gapRender_append, ← he2]; simp only [List.length_append, cs_length]; omega
+      omega)
+  rw [hg2']
+  simp only [List.length_append, cs_length] at hg1'
+  obtain ⟨fh, rfl⟩ : ∃ j, fg = j + (r.n0 :: r.ns).length := ⟨fg - (r.n0 :: r.ns).length, by omega⟩
+  rw [findOne_inerts '(' (r.n0 :: r.ns) hkw fh T3]
+  -- s3 and the parenthesis
+  rw [hT3, he3, gapRender_append]
+  obtain ⟨fi, hi1, hi2⟩ := findOne_gap '(' (by decide) w3 hw3 ('(' :: P) (by simp) g3 hg3 1 fh (by
+      have h1 : (gapRender g3 w3 ('(' :: P)).length = (cs r.s3).length + 1 + P.length := by
+        rw [← gapRender_append, ← he3]; simp only [List.length_append, List.length_cons]; omega
+      omega)
+  rw [hi2]
+  simp only [List.length_cons] at hi1
+  obtain ⟨fj, rfl⟩ : ∃ j, fi = j + 1 := ⟨fi - 1, by omega⟩
+  exact findOne_hit '(' fj P (by decide) (by decide) (by decide)
+
 end StepModel.Lazy
